@@ -173,6 +173,21 @@ S('rqsc::ResourceStructure', 'new', [u8(lambda P: discr('resource_type'), 'type'
       [opt(lambda P: isv(R, 'ACPIDevice'), [u64(R + '.ACPIDevice.0.acpi_hardware_id'), u32(R + '.ACPIDevice.0.acpi_unique_id')],
        [opt(lambda P: isv(R, 'PCIDevice'), [u32(R + '.PCIDevice.0.bdf'), u32(R + '.PCIDevice.0._reserved_resource_id_1'), u32(R + '.PCIDevice.0._reserved_resource_id_2')],
         [('rawvar', R + '.VendorSpecific.1')])])])])], 'RQSC')
+# resource identifiers built by their own constructors (RQSC table 3-5: Resource ID 1, Resource ID 2, resource specific data)
+S('rqsc::CacheResource', 'new', [u32('cache_id'), u32(0, 'reserved'), u32(0, 'reserved')], None, size=12)
+S('rqsc::MemoryAffinityStructureResource', 'new', [u32('proximity_domain'), u32(0, 'reserved'), u32(0, 'reserved'), u64('raw_bandwidth_per_block')], None, size=20)
+S('rqsc::ACPIDeviceResource', 'new', [u64('acpi_hardware_id'), u32('acpi_unique_id')], None, size=12)
+S('rqsc::PCIDeviceResource', 'new', [u32('bdf'), u32(0, 'reserved'), u32(0, 'reserved')], None, size=12)
+# constructors of the structures that are compared through a symbolic receiver (self_view): which argument each field gets
+# ('=name' the constructor argument of that name, a number the constant, 'empty' an empty vector)
+CTOR_FIELDS = {
+ ('cedt::CxlFixedMemory', 'new'): {'base_addr': '=base_addr', 'size': '=size', 'interleave_arithmetic': '=arithmetic', 'interleave_granularity': '=granularity',
+                                   'interleave_ways': '=ways', 'window_restrictions': 0, 'qtg_id': '=qtg_id', 'interleave_targets': 'empty'},
+ ('hest::GenericErrorData', 'new'): {'severity': '=severity', 'data': 'empty', 'revision': 0, 'validation': 0, 'flags': 0, 'error_data_length': 0},
+ # element structures of the RIMT devices (the devices' own layouts above take them as given)
+ ('rimt::IdMapping', 'new'): {'src_id': '=src_id', 'dst_id': '=dst_id', 'num_ids': '=num_ids', 'dst_iommu_offset': '=dst_iommu_offset', 'ats': '=ats', 'pri': '=pri', 'rciep': '=rciep'},
+ ('rimt::InterruptWire', 'new'): {'num': '=num', 'level_trig': '=level_trig', 'polarity_high': '=polarity_high', 'aplic_id': '=aplic_id'},
+}
 # ------------------------------------------------------------------ fixed tables
 T('bert::BERT', 'new', HDR(b'BERT', 1) + [u32('error_region_length'), u64('error_region_base')])
 T('spcr::SPCR', 'sbi', HDR(b'SPCR', 4) + [u8(0x15), raw(bytes(3), 3, 'reserved')] + GAS_DEFAULT + [u8(0), u8(0), u32(0), u8(0), u8(0), u8(0), u8(0), u8(0), u8(0), u16(0xffff), u16(0xffff), u8(0), u8(0), u8(0), u32(0), u8(0), u32(0), u32(0),
